@@ -124,7 +124,15 @@ def make_case(idx):
         b = R.randint(a, nlines)
         addr = R.choice(['%', '%d' % a, '%d,%d' % (a, b), '%d,%d' % (a, b)])
         delim = R.choice(DELIMS)
-        cmds.append({'ast': ast, 'rep': rep, 'g': g, 'addr': addr, 'a': a, 'b': b, 'delim': delim})
+        base = aw = None
+        if ast is not None and R.random() < 0.12:
+            # the line is found by a pattern address of its own: `N` `/word/s/pat/rep/` - the address pattern selects the line,
+            # the command's pattern is what gets replaced
+            base = R.randint(1, nlines)
+            aw = R.choice(['a', 'o', 'foo', 'b', 'x', 'é'])
+            addr = '/%s/' % aw
+            delim = R.choice([',', '#', ':'])
+        cmds.append({'ast': ast, 'rep': rep, 'g': g, 'addr': addr, 'a': a, 'b': b, 'delim': delim, 'base': base, 'aw': aw})
         if ast is not None:
             prev_ast = ast
     return {'lines': lines, 'noic': noic, 'cmds': cmds, 'idx': idx}
@@ -140,6 +148,8 @@ def script_of(case):
         if d in pat.replace('\\' + d, '') and d != '/':
             d = c['delim'] = '/'
         line = '%ss%s%s%s%s%s%s\n' % (c['addr'], d, typed(pat, d), d, typed(c['rep'], d), d, 'g' if c['g'] else '')
+        if c.get('base'):
+            line = '%d\n' % c['base'] + line
         s += line.encode('utf-8')
     s += b'w! out\n'
     return s
@@ -189,7 +199,16 @@ def run_case(args):
             ast = c['ast'] if c['ast'] is not None else prev
             prev = ast
             uses_word |= has_word_anchor(ast)
-            if c['addr'] == '%':
+            if c.get('base'):
+                # first line after line `base` that contains the address word (no wrap-around); none: the command fails
+                hit = [i for i in range(c['base'], len(cur)) if mr.Matcher(('lit', c['aw']), cur[i], icase).search() is not None]
+                hitv = [i for i in range(c['base'], len(var)) if mr.Matcher(('lit', c['aw']), var[i], icase).search() is not None]
+                if hit[:1] != hitv[:1]:
+                    return ('inconclusive', 'variant diverged', wit, case)
+                rng_ = range(hit[0], hit[0] + 1) if hit else range(0)
+                if not hit:
+                    prev = ('lit', c['aw'])      # the address search failed: its pattern is the last one used, :s never ran
+            elif c['addr'] == '%':
                 rng_ = range(0, len(cur))
             elif ',' in c['addr']:
                 rng_ = range(c['a'] - 1, c['b'])
